@@ -193,6 +193,26 @@ def check_desc_channels(rep, s, v, base_cfg, items, hists):
     if why:
         rep.violation('failing-input', {'class': 'PLSSDesc', 'setting': s, 'value': v, 'base_config': pre, 'text': text, 'why': why,
                                         'config_string': ea[:3], 'assigned': eb[:3], 'keyword': ec[:3], 'conflict': ed[:3]})
+    if not why:
+        # a Config *object* given by the caller is input, not scratch space: after any parse (keywords, dry runs) it still says
+        # what it said, and a second object built from it behaves like one built from the same text
+        for base2 in (base_cfg, pre):
+            cobj = Config(base2 or None)
+            before = attrs_of(cobj)
+            with Capture():
+                e1 = pytrs.PLSSDesc(text, config=cobj, wait_to_parse=True)
+                e1.parse(commit=False, **{s: v})
+                e1.parse(**{s: v})
+                e2 = pytrs.PLSSDesc(text, config=cobj)
+                ref = pytrs.PLSSDesc(text, config=base2 or None)
+                t1 = pytrs.Tract('NE, N2, N/2 of Lot 1', trs='154n97w14', config=cobj, parse_qq=True)
+                tref = pytrs.Tract('NE, N2, N/2 of Lot 1', trs='154n97w14', config=base2 or None, parse_qq=True)
+            if attrs_of(cobj) != before or effect(e2.tracts) != effect(ref.tracts) or effect([t1]) != effect([tref]):
+                rep.violation('failing-input', {'class': 'PLSSDesc', 'setting': s, 'value': v, 'config_object': base2, 'text': text,
+                                                'why': 'a Config object passed to PLSSDesc was changed by parse(): objects built from it '
+                                                       'afterwards get settings nobody configured',
+                                                'config_before': str(before), 'config_after': str(attrs_of(cobj))})
+                break
     items.append(descs.corr_item(text, cfg=cfg_full))
     items.append(descs.corr_item(text, cfg=pre, wait=True, kw={s: v}))
     h = [('desc', 0, text, None, pre, None, None, True), ('desc.config', 0, one_cfg(s, v)), ('desc.parse', 0, True, {})]
@@ -375,6 +395,45 @@ def run(ctx):
                 rep.count()
                 rep.nontrivial(('depth-conflict', cfg, str(kw)))
                 items.append(descs.corr_item(text, cfg=cfg, wait=True, kw=dict(kw, parse_qq=True)))
+    # a setting given at creation keeps its effect when ANOTHER setting is assigned to .config afterwards (settings accumulate
+    # on the object; the later assignment says nothing about the first setting): same result as both at creation
+    for s1 in DESC_FOR:
+        if s1 == 'parse_qq':
+            continue
+        for v1 in values_for(s1):
+            for later in ('parse_qq', 'clean_qq' if s1 != 'clean_qq' else 'break_halves', 'parse_qq,segment.False' if s1 != 'segment' else 'parse_qq,sec_within.False'):
+                text = DESC_FOR[s1]
+                try:
+                    with Capture():
+                        both = pytrs.PLSSDesc(text, config=one_cfg(s1, v1) + ',' + later)
+                        d = pytrs.PLSSDesc(text, config=one_cfg(s1, v1), wait_to_parse=True)
+                        d.config = later
+                        d.parse()
+                        d2 = pytrs.PLSSDesc(text, config=later, wait_to_parse=True)
+                        d2.config = one_cfg(s1, v1)
+                        d2.parse()
+                    if not (effect(both.tracts) == effect(d.tracts) == effect(d2.tracts)):
+                        rep.violation('failing-input', {'class': 'PLSSDesc', 'setting': s1, 'value': v1, 'assigned_later': later, 'text': text,
+                                                        'why': 'a setting given at creation loses its effect when another setting is assigned to '
+                                                               '.config before parsing (or the other way round)',
+                                                        'both_at_creation': effect(both.tracts)[:2], 'creation_then_assignment': effect(d.tracts)[:2],
+                                                        'other_order': effect(d2.tracts)[:2]})
+                except Exception as e:  # noqa
+                    rep.violation('failing-input', {'setting': s1, 'value': v1, 'assigned_later': later, 'why': f'raised {type(e).__name__}: {e}'})
+                rep.count()
+                rep.nontrivial(('accumulate', s1, str(v1), later))
+    for s1 in TRACT_KW:
+        for v1 in values_for(s1):
+            later = 'clean_qq' if s1 != 'clean_qq' else 'break_halves'
+            with Capture():
+                both = pytrs.Tract(TRACT_TEXT[s1], trs='154n97w14', config=one_cfg(s1, v1) + ',' + later, parse_qq=True)
+                t = pytrs.Tract(TRACT_TEXT[s1], trs='154n97w14', config=one_cfg(s1, v1))
+                t.config = later
+                t.parse()
+            if effect([both]) != effect([t]):
+                rep.violation('failing-input', {'class': 'Tract', 'setting': s1, 'value': v1, 'assigned_later': later,
+                                                'why': 'a setting given at creation loses its effect when another setting is assigned to .config'})
+            rep.count()
     check_masterconfig(rep)
     rep.count(3)
     ctx.compare(items)
